@@ -190,3 +190,6 @@ def run(ctx: Ctx) -> None:
 
     eager_action_rules(ctx, "R-C16-EAGER")
     lazy_callback_rules(ctx, "R-C16-CALLBACKS")
+    from .shared import lazy_slot_writers
+
+    lazy_slot_writers(ctx, "R-C16-CALLBACKS")
